@@ -17,6 +17,8 @@ PHASES = ["init", "dispatched", "responded", "reset", "slowreset", "failreset", 
 
 
 def one(sid, phase, third, with_ext):
+    if with_ext == "int":
+        return one_internal(sid, phase, third)
     subs = {"e1": ["INVOKE"]} if with_ext else {}
     if phase in ("slowreset", "failreset"):
         # an extension that ignores its SHUTDOWN event keeps the reset running until the 2 s deadline
@@ -92,12 +94,45 @@ def one(sid, phase, third, with_ext):
     return s.done()
 
 
+def one_internal(sid, phase, third):
+    """the only extension is an internal one (it registers from inside the runtime process) subscribed to INVOKE:
+    the invocation is in flight until that extension has polled again, too"""
+    s = Scn(sid, ext=[], timeout_ms=400)
+    s.meta(family="second-caller", phase=phase, ext="internal")
+    s.init()
+    s.await_exec(kind="rt")
+    s.register("int:i1", ["INVOKE"])
+    tags = {"int:i1": s.poll("int:i1"), "rt": s.poll("rt")}
+    i1 = s.invoke(caller=1, size=4, seed=1)
+    s.wait(tags["rt"])
+    s.wait(tags["int:i1"])
+
+    def extra():
+        t2 = s.invoke(caller=2, size=3, seed=77)
+        t3 = s.invoke(caller=3, size=3, seed=78) if third else None
+        s.wait(t2)
+        if t3:
+            s.wait(t3)
+
+    if phase == "dispatched":
+        extra()
+    s.call("rt", "response", id="current", body="one")
+    tags["rt"] = s.poll("rt")
+    if phase == "responded":
+        s.sleep(60)         # the extension is still busy with the event: the invocation is not over
+        extra()
+    tags["int:i1"] = s.poll("int:i1")
+    s.wait(i1)
+    s.round(tags, {}, {"i1": ["INVOKE"]})
+    return s.done()
+
+
 def scenarios(ctx):
     out = []
     n = 0
     for phase in PHASES:
         for third in (False, True):
-            for with_ext in (False, True):
+            for with_ext in (False, True) + (("int",) if phase in ("dispatched", "responded") else ()):
                 n += 1
                 out.append(one("c10-%02d-%s" % (n, phase), phase, third, with_ext))
     if not ctx.quick:
